@@ -37,7 +37,7 @@ ASSUMPTIONS = [
     "'members' = properties and methods; over*_or_empty is reserved for methods only, mutable* for properties and methods (as documented in the lists' comments)",
     "constructor argument order is compared separately for arguments without and with default (Python forces defaults last); "
     "properties are ordered ancestors first (bases in declaration order, de-duplicated), own last",
-    "a top-level alternation like ^a|b$ is not anchored at both ends (re.match('^a|b$', 'axyz') succeeds); ^a$|^b$ is not used",
+    "a top-level alternation like ^a|b$ or ^a$|b$ is not anchored as a whole (some alternative lacks '^' or '$'); ^a$|^b$, where every alternative is anchored, is not used",
     "an exception instead of an error report is not an acceptance; it is counted and left to C01",
     "rejection of an unmutated generator model is generator health (exit 2 below 90 %), not a violation",
     "missing __version__/__xml_namespace__, missing with_model_type and never-assigned properties are not listed by the property: measured, never asserted",
